@@ -473,6 +473,9 @@ func (e *Engine) modItemType(con *Contract, callee *ssa.Function, item string) (
 		return nil, "", fmt.Errorf("cannot resolve function for modifies %q", item)
 	}
 	elems := false
+	if gd, _ := e.ghostOf(item); gd != nil {
+		return types.Typ[types.Invalid], "ghost:" + gd.Name, nil
+	}
 	if base, _, _, isRange := splitModRange(item); isRange {
 		item = base + "[*]" // x[lo:hi]: same memory class as x[*]; the range is honoured where the item is havocked
 	}
@@ -557,6 +560,8 @@ func (e *Engine) modItemType(con *Contract, callee *ssa.Function, item string) (
 
 func (c *FuncCtx) keysForMod(t types.Type, kind string) []string {
 	switch {
+	case strings.HasPrefix(kind, "ghost:"):
+		return []string{"G_" + strings.TrimPrefix(kind, "ghost:")}
 	case kind == "elems":
 		return []string{c.so.heapArr(t.Underlying().(*types.Slice).Elem()).Name}
 	case kind == "map":
